@@ -84,6 +84,18 @@ theorem remote_merged_guard_fails :
       (hist.getLast?.map (·.remote)) = some none ∧
       (afterHistory hist).liveRemote = [] ∧
       ∃ srv ∈ (hist.foldl loadMerged Life.init).liveRemote, keyAnswer srv.acl 0 = 's' :=
-  ⟨[⟨.listen 0, some (2, [⟨[0], []⟩])⟩, ⟨.listen 0, none⟩], by decide⟩
+  ⟨[⟨.listen 0 false, some (2, [⟨[0], []⟩])⟩, ⟨.listen 0 false, none⟩], by decide⟩
+
+/-- the variant of `replaceLocalAdminServer` that assigns `localAdminServer` before the listener is
+    bound (`replaceLocalAssignFirst`) is NOT the lifecycle of the code: after "endpoint with the
+    default origins, a load that cannot bind, the same address with tightened origins" it leaves
+    TWO servers listening on the address, one of them still with the old, loose policy (the
+    variable pointed at the never-started server, so the real one was never stopped) — whereas
+    the real steps leave exactly the tightened one. -/
+theorem local_assign_before_bind_fails :
+    ∃ hist : List LoadCfg,
+      (afterHistory hist).liveLocal = [⟨1, 0, true⟩] ∧
+      ∃ srv ∈ (hist.foldl loadAssignFirst Life.init).liveLocal, srv.addr = 0 ∧ srv.tight = false :=
+  ⟨[⟨.listen 0 false, none⟩, ⟨.blocked, none⟩, ⟨.listen 0 true, none⟩], by decide⟩
 
 end CaddyModel.C13
